@@ -66,10 +66,12 @@ def float_strategy(t: str):
         return st.one_of(
             st.sampled_from([0.0, -0.0, 1.0, -1.5, math.inf, -math.inf, math.nan, 1.401298464324817e-45, 3.4028234663852886e38, 0.10000000149011612]),
             st.floats(width=32),
+            st.sampled_from([math.inf, -math.inf, math.nan, -0.0]),
         )
     return st.one_of(
         st.sampled_from([0.0, -0.0, 1.0, -1.5, math.inf, -math.inf, math.nan, 5e-324, 1.7976931348623157e308, 0.1]),
         st.floats(),
+        st.sampled_from([math.inf, -math.inf, math.nan, -0.0]),
     )
 
 
